@@ -36,6 +36,9 @@ pub struct RxParams {
     pub frames: usize,
     pub mode: ReaderMode,
     pub read_buf: usize,
+    /// client role: another task is inside open_stream() for a NEW stream while the FIN is handled; that stream
+    /// must afterwards carry its data and end only at its own FIN
+    pub opening_sibling: bool,
     pub sibling: bool,
     pub read_menu: bool,
 }
@@ -112,6 +115,15 @@ pub fn make_rx(p: RxParams) -> ScenarioFn {
             let id = s1.id();
             let mut sent: Vec<u8> = vec![];
             let chunk = |k: usize| -> Vec<u8> { pat_vec(id as u8, 1, k * 10, 10) };
+            let opener = if p.opening_sibling && p.client_role {
+                let s = sess.clone();
+                Some(tokio::spawn(async move {
+                    crate::ctl::hpoint("h.c08.open").await;
+                    s.open_stream().await.ok().map(|x| x.0)
+                }))
+            } else {
+                None
+            };
             let reader;
             match p.mode {
                 ReaderMode::Blocked => {
@@ -201,6 +213,20 @@ pub fn make_rx(p: RxParams) -> ScenarioFn {
                     out.viol("C08:rx:sibling-disturbed", format!("sibling read {:?}", String::from_utf8_lossy(&acc)));
                 }
             }
+            // a stream that was being opened while the FIN was handled is a stream like any other
+            if let Some(o) = opener {
+                match tokio::time::timeout(Duration::from_secs(3600), o).await {
+                    Ok(Ok(Some(c))) => {
+                        peer.send(PSH, c.id(), b"late-sib");
+                        peer.send(FIN, c.id(), b"");
+                        let (got, end) = read_to_end(c.clone(), 7).await;
+                        if got != b"late-sib" || end != Some(true) {
+                            out.viol("C08:rx:stream-opened-during-fin-disturbed", format!("stream {} (opened while the FIN of stream {id} was handled): read {:?}, end {:?}; the peer sent 8 bytes and then a FIN", c.id(), String::from_utf8_lossy(&got), end));
+                        }
+                    }
+                    other => out.viol("C08:rx:stream-opened-during-fin-disturbed", format!("open_stream racing the FIN: {:?}", other.map(|r| r.map(|o| o.is_some()).map_err(|e| e.to_string())))),
+                }
+            }
             // the other direction of the finished stream still works
             match within(sess.write_data_frame(id, Bytes::from_static(b"probe-after-fin"))).await {
                 Some(Ok(())) => {
@@ -226,7 +252,7 @@ pub fn make_rx(p: RxParams) -> ScenarioFn {
 }
 
 pub fn rx_json(p: &RxParams) -> serde_json::Value {
-    json!({"part": "receive-side", "role": if p.client_role {"client"} else {"server"}, "frames": p.frames, "mode": format!("{:?}", p.mode), "read_buf": p.read_buf, "sibling": p.sibling, "read_menu": p.read_menu})
+    json!({"part": "receive-side", "role": if p.client_role {"client"} else {"server"}, "frames": p.frames, "mode": format!("{:?}", p.mode), "read_buf": p.read_buf, "sibling": p.sibling, "read_menu": p.read_menu, "opening_sibling": p.opening_sibling})
 }
 
 pub fn items(tier: Tier) -> Vec<DxItem> {
@@ -254,13 +280,22 @@ pub fn items(tier: Tier) -> Vec<DxItem> {
                             } else {
                                 1
                             };
-                            let p = RxParams { client_role, frames, mode, read_buf, sibling, read_menu };
-                            let mut it = DxItem::new(rx_json(&p), make_rx(p), bound);
+                            let p = RxParams { client_role, frames, mode, read_buf, sibling, read_menu, opening_sibling: false };
+                            let mut it = DxItem::new(rx_json(&p), make_rx(p.clone()), bound);
                             if bound > 0 {
                                 it.exec.long_yield = 3;
                                 it.exec.quiesce = true;
                             }
                             v.push(it);
+                            // the same with a stream being opened by another task while the FIN is handled
+                            if client_role && read_buf == 7 && !read_menu && !sibling && mode != ReaderMode::Partial && frames <= 1 {
+                                let mut p2 = p;
+                                p2.opening_sibling = true;
+                                let mut it = DxItem::new(rx_json(&p2), make_rx(p2), if thorough { 2 } else { 1 });
+                                it.exec.long_yield = 3;
+                                it.exec.quiesce = true;
+                                v.push(it);
+                            }
                         }
                     }
                 }
